@@ -217,6 +217,76 @@ def same_double(a, b):
     return f64_bits(a) == f64_bits(b) or (a != a and b != b)
 
 
+_NUM_RE = re.compile(r"^[ \t\r\n]*(-?)([0-9]+(\.[0-9]*)?|\.[0-9]+)[ \t\r\n]*$")
+
+
+def py_string_to_number(st):
+    """number(string) per XPath 1.0 section 4.4, with Python's correctly rounded float()"""
+    m = _NUM_RE.match(st)
+    if not m:
+        return float("nan")
+    body = m.group(2)
+    if body.startswith("."):
+        body = "0" + body
+    if body.endswith("."):
+        body = body + "0"
+    v = float(body)
+    return -v if m.group(1) else v
+
+
+def py_number_to_string(x):
+    """string(number) per XPath 1.0 section 4.2, from Python's shortest round-trip repr"""
+    import decimal
+
+    if x != x:
+        return "NaN"
+    if x in (float("inf"), float("-inf")):
+        return "Infinity" if x > 0 else "-Infinity"
+    if x == 0:
+        return "0"
+    st = format(decimal.Decimal(repr(x)), "f")
+    if "." in st:
+        st = st.rstrip("0").rstrip(".")
+    return st
+
+
+def sanity(case):
+    """independent re-computation (in Python) of the scalar conversions the
+    reference performed; returns a category name if the reference is wrong"""
+    for h, refstr in case.get("n2s", []):
+        x = bits_f64(h)
+        py = py_number_to_string(x)
+        if py != refstr:
+            # several shortest digit strings can identify the same double
+            # (e.g. 2^50+0.25 -> ...624.2 / ...624.3); accept any of them
+            if not (len(py) == len(refstr) and x == x and abs(x) != float("inf") and float(refstr) == x):
+                return "REFERENCE-BUG number_to_string(%s) = %r" % (h, refstr)
+    for st, h in case.get("s2n", []):
+        if not same_double(py_string_to_number(st), bits_f64(h)):
+            return "REFERENCE-BUG string_to_number(%r)" % st
+    for tok, h in case.get("lit", []):
+        if not same_double(py_string_to_number(tok), bits_f64(h)):
+            return "REFERENCE-BUG literal %r" % tok
+    for hi, ho in case.get("rnd", []):
+        if f64_bits(py_round(bits_f64(hi))) != int(ho, 16) and bits_f64(hi) == bits_f64(hi):
+            return "REFERENCE-BUG round(%s)" % hi
+    return None
+
+
+def py_round(x):
+    """round() per XPath 1.0 section 4.4, computed exactly with fractions"""
+    import fractions
+    import math
+
+    if x != x or x in (float("inf"), float("-inf")) or x == 0:
+        return x
+    f = fractions.Fraction(x)
+    r = math.floor(f + fractions.Fraction(1, 2))  # nearest, ties towards +infinity
+    if r == 0 and x < 0:
+        return -0.0
+    return float(r)
+
+
 def explain(case, spec, ctx):
     """Which known libxml2 deviations are *demonstrably* involved in this case?
     Scalar deviations are verified on the exact values the reference
@@ -247,6 +317,14 @@ def explain(case, spec, ctx):
             if not same_double(got, bits_f64(h)):
                 tags.append("number-literal(precision)")
                 break
+    import math
+
+    for hi, ho in case.get("rnd", []):
+        x = bits_f64(hi)
+        if x == x and abs(x) < 2.0**52 and x != 0 and not same_double(float(math.floor(x + 0.5)), bits_f64(ho)):
+            if not (math.floor(x + 0.5) == 0 and bits_f64(ho) == 0):
+                tags.append("round-as-floor(x+0.5)")
+                break
     flags = set(case.get("flags", []))
     df = set(spec.get("docflags", []))
     if "ns-order-dependent" in flags:
@@ -261,7 +339,80 @@ def explain(case, spec, ctx):
         tags.append("preceding-after-document-element")
     if "following-from-attr-or-ns" in flags:
         tags.append("following-from-attribute")
+    if "lang-on-namespace-node" in flags:
+        tags.append("lang-on-namespace-node")
     return tags
+
+
+def compare_case(L, ctx, index, by_index, case):
+    """evaluates one case with libxml2 (C API); returns (category or None, libxml2 value)"""
+    ctx.contents.node = by_index[case["c"]]
+    ctx.contents.contextSize = case["s"]
+    ctx.contents.proximityPosition = case["p"]
+    obj = L.xmlXPathEvalExpression(case["e"].encode("utf-8"), ctx)
+    t, v = case["t"], case["v"]
+    got_t, got_v = None, None
+    if not obj:
+        got_t = "err"
+    else:
+        o = obj.contents
+        if o.type == 1:
+            got_t = "ns"
+            got_v = []
+            if o.nodesetval:
+                s = o.nodesetval.contents
+                for i in range(s.nodeNr):
+                    ptr = s.nodeTab[i]
+                    if node_at(ptr).type == 18:
+                        ns = XmlNs.from_address(ptr)
+                        got_v.append([index.get(ns.next, -1), (ns.prefix or b"").decode("utf-8")])
+                    else:
+                        got_v.append(index.get(ptr, -1))
+        elif o.type == 2:
+            got_t, got_v = "bool", bool(o.boolval)
+        elif o.type == 3:
+            got_t, got_v = "num", o.floatval
+        elif o.type == 4:
+            got_t, got_v = "str", (o.stringval or b"").decode("utf-8", "replace")
+        else:
+            got_t = "type%d" % o.type
+        L.xmlXPathFreeObject(obj)
+    cat = None
+    if t != got_t:
+        if t == "err":
+            cat = "ref-error(%s)-lx-%s" % (v, got_t)
+        elif got_t == "err":
+            cat = "lx-error-ref-%s" % t
+        else:
+            cat = "type-%s-vs-%s" % (t, got_t)
+    elif t == "ns":
+        key = lambda x: (x, "") if isinstance(x, int) else (x[0], "\0" + x[1])
+        if sorted(map(key, v)) != sorted(map(key, got_v)):
+            cat = "nodeset"
+        elif list(map(key, v)) != list(map(key, got_v)):
+            cat = "nodeset-order"
+    elif t == "num":
+        rb = int(v, 16)
+        gb = f64_bits(got_v)
+        ref = struct.unpack(">d", struct.pack(">Q", rb))[0]
+        if rb != gb:
+            if ref != ref and got_v != got_v:
+                pass  # NaN payload / sign is not observable
+            elif ref == 0.0 and got_v == 0.0:
+                cat = "num-zero-sign"
+            else:
+                cat = "num"
+        got_v = repr(got_v)
+    elif t in ("str", "bool"):
+        if v != got_v:
+            cat = t
+    if cat == "nodeset-order":
+        # same set, different order of the returned array: not observable in
+        # XPath itself (a node-set is unordered); libxml2 does not fully sort
+        # sets that contain namespace nodes
+        has_ns = any(not isinstance(x, int) for x in v)
+        cat = "array-order-only(%s)" % ("with namespace nodes" if has_ns else "NO namespace nodes")
+    return cat, got_v
 
 
 def run_doc_ctypes(path):
@@ -287,72 +438,10 @@ def run_doc_ctypes(path):
     n = 0
     for case in spec["cases"]:
         n += 1
-        ctx.contents.node = by_index[case["c"]]
-        ctx.contents.contextSize = case["s"]
-        ctx.contents.proximityPosition = case["p"]
-        obj = L.xmlXPathEvalExpression(case["e"].encode("utf-8"), ctx)
-        t, v = case["t"], case["v"]
-        got_t, got_v = None, None
-        if not obj:
-            got_t = "err"
-        else:
-            o = obj.contents
-            if o.type == 1:
-                got_t = "ns"
-                got_v = []
-                if o.nodesetval:
-                    s = o.nodesetval.contents
-                    for i in range(s.nodeNr):
-                        ptr = s.nodeTab[i]
-                        if node_at(ptr).type == 18:
-                            ns = XmlNs.from_address(ptr)
-                            got_v.append([index.get(ns.next, -1), (ns.prefix or b"").decode("utf-8")])
-                        else:
-                            got_v.append(index.get(ptr, -1))
-            elif o.type == 2:
-                got_t, got_v = "bool", bool(o.boolval)
-            elif o.type == 3:
-                got_t, got_v = "num", o.floatval
-            elif o.type == 4:
-                got_t, got_v = "str", (o.stringval or b"").decode("utf-8", "replace")
-            else:
-                got_t = "type%d" % o.type
-            L.xmlXPathFreeObject(obj)
-        cat = None
-        if t != got_t:
-            if t == "err":
-                cat = "ref-error(%s)-lx-%s" % (v, got_t)
-            elif got_t == "err":
-                cat = "lx-error-ref-%s" % t
-            else:
-                cat = "type-%s-vs-%s" % (t, got_t)
-        elif t == "ns":
-            key = lambda x: (x, "") if isinstance(x, int) else (x[0], "\0" + x[1])
-            if sorted(map(key, v)) != sorted(map(key, got_v)):
-                cat = "nodeset"
-            elif list(map(key, v)) != list(map(key, got_v)):
-                cat = "nodeset-order"
-        elif t == "num":
-            rb = int(v, 16)
-            gb = f64_bits(got_v)
-            ref = struct.unpack(">d", struct.pack(">Q", rb))[0]
-            if rb != gb:
-                if ref != ref and got_v != got_v:
-                    pass  # NaN payload / sign is not observable
-                elif ref == 0.0 and got_v == 0.0:
-                    cat = "num-zero-sign"
-                else:
-                    cat = "num"
-            got_v = repr(got_v)
-        elif t in ("str", "bool"):
-            if v != got_v:
-                cat = t
-        if cat == "nodeset-order":
-            # same set, different order of the returned array: not observable in
-            # XPath itself (a node-set is unordered); libxml2 does not fully sort
-            # sets that contain namespace nodes
-            has_ns = any(not isinstance(x, int) for x in v)
-            cat = "array-order-only(%s)" % ("with namespace nodes" if has_ns else "NO namespace nodes")
+        cat, got_v = compare_case(L, ctx, index, by_index, case)
+        bug = sanity(case)
+        if bug:
+            mism.append({"doc": base, "cat": bug, "case": case, "lx": None})
         if cat:
             tags = explain(case, spec, ctx)
             if cat.startswith("ref-error(Type:filter)"):
@@ -373,9 +462,36 @@ def run_doc_ctypes(path):
 # xmllint --shell back-end
 
 
-def fmt15(x):
-    """libxml2's string(number): integers as such, else %.15g-like positional"""
-    return x
+def debug_dump_string(st):
+    """what xmllint's shell prints for a string value (xmlDebugDumpString):
+    at most 40 bytes, blanks as ' ', bytes >= 0x80 as #XX, then '...'"""
+    b = st.encode("utf-8")
+    out = []
+    for i in range(40):
+        if i >= len(b):
+            return "".join(out)
+        c = b[i]
+        if c in (0x20, 0x9, 0xA, 0xD):
+            out.append(" ")
+        elif c >= 0x80:
+            out.append("#%X" % c)
+        else:
+            out.append(chr(c))
+    return "".join(out) + "..."
+
+
+_dummy = None
+
+
+def dummy_ctx():
+    """an XPath context on an empty document (for evaluating number literals)"""
+    global _dummy
+    if _dummy is None:
+        L = lib()
+        xml = b"<x/>"
+        doc = L.xmlReadMemory(xml, len(xml), b"x.xml", None, 0)
+        _dummy = L.xmlXPathNewContext(doc)
+    return _dummy
 
 
 def run_doc_shell(path):
@@ -414,6 +530,7 @@ def run_doc_shell(path):
     out = out.replace("/ > ", "")
     mism = []
     n = 0
+    api = None
     for i, case in enumerate(spec["cases"]):
         a = out.find("Object is a string : " + (marker % i) + "\n")
         b = out.find("Object is a string : " + (marker % (i + 1)) + "\n")
@@ -425,11 +542,15 @@ def run_doc_shell(path):
         t, v = case["t"], case["v"]
         cat = None
         got = chunk
+        lx_error = chunk.strip() == "" or "Object is empty (NULL)" in chunk
         if t == "err":
-            if chunk.strip() != "":
+            if not lx_error:
                 cat = "ref-error(%s)-lx-ok" % v
-        elif chunk.strip() == "":
+        elif lx_error:
             cat = "lx-error-ref-%s" % t
+            if re.search(r"position|last", case["e"]):
+                # the xmllint shell evaluates with context position = size = -1
+                cat = "explained[shell has no context position/size]: " + cat
         elif t == "ns":
             m = re.fullmatch(r"Object is a number : (\S+)\n", chunk)
             if not m or float(m.group(1)) != len(v):
@@ -438,7 +559,7 @@ def run_doc_shell(path):
             if chunk != "Object is a Boolean : %s\n" % ("true" if v else "false"):
                 cat = "bool"
         elif t == "str":
-            if chunk != "Object is a string : %s\n" % v:
+            if chunk != "Object is a string : %s\n" % debug_dump_string(v):
                 cat = "str"
         elif t == "num":
             parts = chunk.split("Object is a string : @@SEP@@\n")
@@ -465,6 +586,29 @@ def run_doc_shell(path):
                         cat = "num-format"
                     else:
                         cat = "num"
+        if cat and not cat.startswith("explained["):
+            tags = explain(case, spec, dummy_ctx())
+            if cat.startswith("ref-error(Type:filter)"):
+                tags.append("predicate-on-non-node-set")
+            if cat == "num-format":
+                tags.append("number-format")
+            if tags:
+                cat = "explained[%s]: %s" % (",".join(tags), cat)
+            else:
+                # does the C API of the same library agree with the shell?
+                if api is None:
+                    L = lib()
+                    with open(base + ".xml", "rb") as f:
+                        xml = f.read()
+                    doc = L.xmlReadMemory(xml, len(xml), b"doc.xml", None, 0)
+                    index, _ = index_doc(doc)
+                    actx = L.xmlXPathNewContext(doc)
+                    for p, u in spec["ns"]:
+                        L.xmlXPathRegisterNs(actx, p.encode(), u.encode())
+                    api = (L, actx, index, {v: k for k, v in index.items()})
+                acat, _ = compare_case(api[0], api[1], api[2], api[3], case)
+                if acat is None or acat.startswith("array-order-only"):
+                    cat = "explained[xmllint-shell-only; the C API agrees with the reference]: " + cat
         if cat:
             mism.append({"doc": base, "cat": cat, "case": case, "lx": got})
     return n, mism
